@@ -1,11 +1,385 @@
 package main
 
-import "verifharness/internal/vf"
+// C10 — a source collection is replicated by at most one task per target.
+//
+// Runtime monitoring of the REAL server (server.MetaCDC + the /cdc HTTP handler, real EtcdMetaStore, real readers
+// against fakemilvus / memq), in this process. Generated sequences of create / delete requests, "restarts" (the old
+// instance is shut down with a ghost store, a new MetaCDC + ReloadTask is built on the same meta root) and store
+// failures injected at the k-th store call of a request. After EVERY request the monitor (c10_exec.go) evaluates:
+//   (1) exclusivity     per target and (database, collection) of a finite universe at most one stored task selects it
+//                       (real server.GetShouldReadFunc on the TaskInfo read back from etcd);
+//   (2) differential    DDL path (GetCollectionInfos + MatchCollection as getChannelReader uses them) == data path;
+//   (3) selection       ShouldRead == spec(t) minus stored ExcludeCollections, and ExcludeCollections == the names of
+//                       the other live tasks of the target contained in spec(t) at creation (set algebra over the
+//                       request history);
+//   (4) rejection       a request answered with code != 200 leaves data / excludeData / extraInfos and the etcd
+//                       records under the meta root unchanged;
+//   (5) implied state   after every accepted request and every restart the bookkeeping equals what the live tasks
+//                       imply (multiset of their spec names, union of their stored excludes, OR of their user-role
+//                       flags); at the end of a sequence (thorough: also after every delete / failed create /
+//                       restart) the instance is compared with a REFERENCE instance on a fresh meta root on which
+//                       only the remaining tasks were created in their original order, and a fixed probe list is put
+//                       to checkDuplicateCollection (hook) on both.
+
+import (
+	"fmt"
+	"flag"
+	"os"
+	"os/exec"
+	"path/filepath"
+	"runtime"
+	"sync"
+
+	"verifharness/internal/sysboot"
+	"verifharness/internal/vf"
+)
+
+type c10Spec struct {
+	DB   string `json:"db"`            // default | d1 | d2 | *
+	Coll string `json:"coll"`          // a | b | *
+	Via  string `json:"via,omitempty"` // "" (collection_infos for default, db_collections otherwise) | "dbc" (db_collections even for default)
+}
+
+func (s c10Spec) full() string { return s.DB + "." + s.Coll }
+
+func (s c10Spec) shape() string {
+	d, c := "named", "named"
+	switch s.DB {
+	case "default":
+		d = "default"
+	case "*":
+		d = "star"
+	}
+	if s.Coll == "*" {
+		c = "star"
+	}
+	return d + "." + c
+}
+
+type c10Step struct {
+	Op       string  `json:"op"` // create | toggle | delete | delspec | restart
+	Target   int     `json:"target"`
+	Spec     c10Spec `json:"spec,omitempty"`
+	UserRole bool    `json:"user_role,omitempty"`
+	Mapping  string  `json:"mapping,omitempty"` // "" | coll | db | bad
+	FailAt   int     `json:"fail_at,omitempty"` // k-th store call of this request fails (0: none)
+	Del      int     `json:"del,omitempty"`     // delete: index into the live list (mod len); <0: unknown id
+	Invalid  string  `json:"invalid,omitempty"` // empty-name | two-infos | both-kinds
+}
+
+type c10Seq struct {
+	Idx   int       `json:"idx"`
+	Kind  string    `json:"kind"`
+	Steps []c10Step `json:"steps"`
+}
+
+var c10Shapes = []c10Spec{
+	{DB: "default", Coll: "a"}, {DB: "default", Coll: "*"},
+	{DB: "d1", Coll: "a"}, {DB: "d1", Coll: "*"},
+	{DB: "*", Coll: "a"}, {DB: "*", Coll: "*"},
+}
+
+func c10RandSpec(rnd interface{ Intn(int) int }) c10Spec {
+	var s c10Spec
+	switch q := rnd.Intn(100); {
+	case q < 45:
+		s.DB = "d1"
+	case q < 65:
+		s.DB = "default"
+		if rnd.Intn(10) < 3 {
+			s.Via = "dbc"
+		}
+	case q < 93:
+		s.DB = "*"
+	default:
+		s.DB = "d2"
+	}
+	switch q := rnd.Intn(100); {
+	case q < 50:
+		s.Coll = "a"
+	case q < 88:
+		s.Coll = "*"
+	default:
+		s.Coll = "b"
+	}
+	return s
+}
+
+func c10RandStep(rnd interface{ Intn(int) int }) c10Step {
+	target := 0
+	if rnd.Intn(4) == 0 {
+		target = 1
+	}
+	mapping := func() string {
+		switch q := rnd.Intn(100); {
+		case q < 60:
+			return ""
+		case q < 80:
+			return "coll"
+		case q < 92:
+			return "db"
+		}
+		return "bad"
+	}
+	switch q := rnd.Intn(100); {
+	case q < 58:
+		st := c10Step{Op: "toggle", Target: target, Spec: c10RandSpec(rnd), UserRole: rnd.Intn(4) == 0, Mapping: mapping()}
+		if rnd.Intn(10) < 3 {
+			st.Op = "create"
+		}
+		if rnd.Intn(100) < 18 {
+			st.FailAt = 1 + rnd.Intn(6)
+		}
+		if rnd.Intn(100) < 4 {
+			st.Invalid = []string{"empty-name", "two-infos", "both-kinds"}[rnd.Intn(3)]
+		}
+		return st
+	case q < 76:
+		st := c10Step{Op: "delete", Target: target, Del: rnd.Intn(100)}
+		if rnd.Intn(10) == 0 {
+			st.Del = -1
+		}
+		if rnd.Intn(100) < 12 {
+			st.FailAt = 1 + rnd.Intn(5)
+		}
+		return st
+	case q < 88:
+		return c10Step{Op: "restart"}
+	default:
+		st := c10Step{Op: "create", Target: target, Spec: c10RandSpec(rnd), UserRole: true}
+		if rnd.Intn(100) < 25 {
+			st.FailAt = 1 + rnd.Intn(6)
+		}
+		return st
+	}
+}
+
+// c10Sequences: the case list is a fixed function of (seed, tier).
+//
+//	A  every ordered pair of the 6 spec shapes, created in that order on one target, followed by 0-3 random steps
+//	B  every ordered triple (X, Y, Z) of distinct shapes: create X, create Y, delete X, create Z, create X
+//	W  every toggle word of length 5 over {d1.a, d1.*, *.a, *.*} without immediate repetition
+//	D  containment chains with a failing / deleted outermost wildcard; U  user-role flag through delete / failure / restart
+//	C  random sequences of 1-8 steps: toggles/creates over all shapes, +-user role, +-name mapping, two targets,
+//	   deletes, restarts, injected store failures, invalid requests
+func c10Sequences(run *vf.Run) []*c10Seq {
+	var out []*c10Seq
+	add := func(kind string, steps []c10Step) {
+		out = append(out, &c10Seq{Idx: len(out), Kind: kind, Steps: steps})
+	}
+	for i, x := range c10Shapes {
+		for j, y := range c10Shapes {
+			rnd := vf.Rand(run.Seed, "c10-A", i*6+j)
+			y2 := y
+			if i == j && y.Coll != "*" {
+				y2.Coll = "b" // same shape, different collection
+			}
+			st := []c10Step{{Op: "create", Spec: x}, {Op: "create", Spec: y2}}
+			if i == j {
+				st = append(st, c10Step{Op: "create", Spec: x}) // exact duplicate
+			}
+			if rnd.Intn(3) == 0 {
+				st[0].UserRole = true
+			}
+			if rnd.Intn(3) == 0 {
+				st[1].UserRole = true
+			}
+			for n := rnd.Intn(4); n > 0; n-- {
+				st = append(st, c10RandStep(rnd))
+			}
+			add("A", st)
+		}
+	}
+	nB := 0
+	for i, x := range c10Shapes {
+		for j, y := range c10Shapes {
+			for k, z := range c10Shapes {
+				if i == j || j == k || i == k {
+					continue
+				}
+				nB++
+				st := []c10Step{{Op: "create", Spec: x}, {Op: "create", Spec: y}, {Op: "delspec", Spec: x}, {Op: "create", Spec: z}, {Op: "create", Spec: x}}
+				rnd := vf.Rand(run.Seed, "c10-B", nB)
+				if rnd.Intn(4) == 0 {
+					st = append(st[:3:3], append([]c10Step{{Op: "restart"}}, st[3:]...)...)
+				}
+				add("B", st)
+			}
+		}
+	}
+	// D: chains of contained specifications x < y < z: create x, y, then z (accepted and deleted again, or failing at the
+	//    k-th store call), optionally a restart, then delete x and create x again.
+	chains := [][3]c10Spec{
+		{{DB: "default", Coll: "a"}, {DB: "default", Coll: "*"}, {DB: "*", Coll: "*"}},
+		{{DB: "default", Coll: "a"}, {DB: "*", Coll: "a"}, {DB: "*", Coll: "*"}},
+		{{DB: "d1", Coll: "a"}, {DB: "d1", Coll: "*"}, {DB: "*", Coll: "*"}},
+		{{DB: "d1", Coll: "a"}, {DB: "*", Coll: "a"}, {DB: "*", Coll: "*"}},
+	}
+	for ci, ch := range chains {
+		for v := 0; v <= 7; v++ {
+			st := []c10Step{{Op: "create", Spec: ch[0]}, {Op: "create", Spec: ch[1]}}
+			switch {
+			case v == 0:
+				st = append(st, c10Step{Op: "create", Spec: ch[2]}, c10Step{Op: "delspec", Spec: ch[2]})
+			case v == 7:
+				st = append(st, c10Step{Op: "create", Spec: ch[2]}, c10Step{Op: "restart"}, c10Step{Op: "delspec", Spec: ch[2]})
+			default:
+				st = append(st, c10Step{Op: "create", Spec: ch[2], FailAt: v})
+			}
+			if (ci+v)%3 == 0 {
+				st = append(st, c10Step{Op: "restart"})
+			}
+			st = append(st, c10Step{Op: "delspec", Spec: ch[0]}, c10Step{Op: "create", Spec: ch[0]})
+			add("D", st)
+		}
+	}
+	// U: the user-role flag through delete, failed create and restart, on both targets
+	for ti := 0; ti < 2; ti++ {
+		x, y, z := c10Spec{DB: "d1", Coll: "a"}, c10Spec{DB: "d2", Coll: "a"}, c10Spec{DB: "default", Coll: "b"}
+		add("U", []c10Step{{Op: "create", Target: ti, Spec: x, UserRole: true}, {Op: "delspec", Target: ti, Spec: x}, {Op: "create", Target: ti, Spec: y, UserRole: true}})
+		add("U", []c10Step{{Op: "create", Target: ti, Spec: x, UserRole: true}, {Op: "create", Target: ti, Spec: y}, {Op: "delspec", Target: ti, Spec: x}, {Op: "restart"}, {Op: "create", Target: ti, Spec: z, UserRole: true}})
+		for k := 1; k <= 6; k++ {
+			add("U", []c10Step{{Op: "create", Target: ti, Spec: x}, {Op: "create", Target: ti, Spec: y, UserRole: true, FailAt: k}, {Op: "create", Target: ti, Spec: y, UserRole: true}})
+		}
+		add("U", []c10Step{{Op: "create", Target: ti, Spec: x, UserRole: true}, {Op: "create", Target: ti, Spec: y}, {Op: "restart"}, {Op: "create", Target: ti, Spec: z, UserRole: true}})
+		add("U", []c10Step{{Op: "create", Target: ti, Spec: x}, {Op: "create", Target: ti, Spec: y, UserRole: true}, {Op: "restart"}, {Op: "create", Target: ti, Spec: z, UserRole: true}})
+		add("U", []c10Step{{Op: "create", Target: ti, Spec: x, UserRole: true}, {Op: "create", Target: 1 - ti, Spec: x, UserRole: true}, {Op: "create", Target: ti, Spec: y, UserRole: true}, {Op: "delspec", Target: 1 - ti, Spec: x}, {Op: "restart"}, {Op: "create", Target: 1 - ti, Spec: y, UserRole: true}})
+	}
+	{
+		sigma := []c10Spec{{DB: "d1", Coll: "a"}, {DB: "d1", Coll: "*"}, {DB: "*", Coll: "a"}, {DB: "*", Coll: "*"}}
+		for w := 0; w < 1024; w++ {
+			var st []c10Step
+			v, prev, ok := w, -1, true
+			for n := 0; n < 5; n++ {
+				c := v % 4
+				v /= 4
+				if c == prev { // toggling the same spec twice in a row: covered by shorter words
+					ok = false
+					break
+				}
+				prev = c
+				st = append(st, c10Step{Op: "toggle", Spec: sigma[c]})
+			}
+			if ok {
+				add("W", st)
+			}
+		}
+	}
+	nC := run.Pick(500, 9000)
+	for i := 0; i < nC; i++ {
+		rnd := vf.Rand(run.Seed, "c10-C", i)
+		n := 1 + rnd.Intn(8)
+		var st []c10Step
+		for k := 0; k < n; k++ {
+			st = append(st, c10RandStep(rnd))
+		}
+		add("C", st)
+	}
+	return out
+}
+
+const c10BatchSize = 40
+
+var (
+	fC10Batch   = flag.Int("c10-batch", -1, "C10 worker: batch number")
+	fC10Batches = flag.Int("c10-batches", 1, "C10 worker: number of batches")
+	fC10Dump    = flag.String("c10-dump", "", "C10 worker: file for the partial run")
+)
+
+// c10RunBatch runs the sequences on nw worlds of this process (sequences of one world run one after the other).
+func c10RunBatch(run *vf.Run, seqs []*c10Seq, name string, nw int) {
+	if len(seqs) < nw {
+		nw = len(seqs)
+	}
+	var wg sync.WaitGroup
+	for wi := 0; wi < nw; wi++ {
+		wg.Add(1)
+		go func(wi int) {
+			defer wg.Done()
+			var w *sysboot.World
+			var err error
+			for try := 0; try < 6; try++ { // free ports are picked, released and bound again: concurrent workers can collide
+				if w, err = sysboot.NewWorld(sysboot.WorldOptions{Dir: scratchDir(fmt.Sprintf("c10-%s-w%d-%d", name, wi, try)), Targets: 2}); err == nil {
+					break
+				}
+			}
+			if err != nil {
+				run.Inconclusive(fmt.Sprintf("batch %s world %d: %v", name, wi, err))
+				return
+			}
+			defer w.Close()
+			for i := wi; i < len(seqs); i += nw {
+				if !c10RunSeq(run, w, seqs[i]) {
+					run.Inconclusive(fmt.Sprintf("batch %s world %d abandoned at sequence %d (watchdog)", name, wi, seqs[i].Idx))
+					return
+				}
+			}
+		}(wi)
+	}
+	wg.Wait()
+}
 
 func runC10(tier string) *vf.Run {
 	run := vf.NewRun("C10", tier, "exploration")
-	run.Rule = "not built yet"
-	run.Inconclusive("check not built yet")
-	run.Floor("built", 1)
+	run.Rule = "a case is one sequence of create/delete/restart requests (1-8 steps; shape pairs A, delete/re-create triples B, " +
+		"random C with user-role flag, name mappings, two targets, injected store failures) sent to the real /cdc handler; " +
+		"toggle words W, containment chains D, user-role cases U; non-trivial: at least one create was accepted; distinct by the word of (operation, spec shape, flags, outcome)"
+	run.Assumptions = []string{
+		"MetaCDC instances run in the rig's process; a restart is a new MetaCDC + ReloadTask on the same etcd meta root after the old instance was stopped through a ghost store (writes dropped) — process-wide singletons (metrics, client cache) are shared with the old incarnation",
+		"every task has exactly one specification entry (validCreateRequest admits no more); names contain no '.'",
+		"store failures are injected one per request, before the call reaches etcd",
+		"the universe of (database, collection) pairs is {default,d1,d2,d9} x {a,b,c,z}; d9 and z are never named by a specification",
+	}
+	seqs := c10Sequences(run)
+	switch {
+	case *fCase >= 0: // debug: one sequence, in this process
+		var one []*c10Seq
+		for _, s := range seqs {
+			if s.Idx == *fCase {
+				one = append(one, s)
+			}
+		}
+		c10RunBatch(run, one, "one", 1)
+	case *fC10Batch >= 0: // worker process: its share of the case list, then dump the partial run for the parent
+		var mine []*c10Seq
+		for i, s := range seqs {
+			if i%*fC10Batches == *fC10Batch {
+				mine = append(mine, s)
+			}
+		}
+		c10RunBatch(run, mine, fmt.Sprintf("b%d", *fC10Batch), 2)
+		fmt.Fprintf(os.Stderr, "c10 worker %d/%d: %d sequences done, %d goroutines alive\n", *fC10Batch, *fC10Batches, len(mine), runtime.NumGoroutine())
+		if err := run.Dump(*fC10Dump); err != nil {
+			fmt.Fprintln(os.Stderr, "c10 worker: dump:", err)
+			os.Exit(70)
+		}
+		os.Exit(0)
+	default:
+		// The SUT leaks gRPC / etcd clients and goroutines per task and per MetaCDC instance (≈ 13 MB per sequence under
+		// the race detector), so the case list is executed by short-lived worker processes.
+		batches := (len(seqs) + c10BatchSize - 1) / c10BatchSize
+		parallel(batches, 7, func(b int) {
+			dump := filepath.Join(scratchDir("c10-dumps"), fmt.Sprintf("b%d.json", b))
+			cmd := exec.Command(os.Args[0], "-prop", "C10", "-tier", tier, "-c10-batch", fmt.Sprint(b), "-c10-batches", fmt.Sprint(batches), "-c10-dump", dump)
+			cmd.Stdout, cmd.Stderr = os.Stdout, os.Stderr
+			err := cmd.Run()
+			if merr := run.Merge(dump); merr != nil {
+				run.Inconclusive(fmt.Sprintf("worker %d of %d: no result (%v, %v)", b, batches, err, merr))
+			} else if err != nil {
+				run.Inconclusive(fmt.Sprintf("worker %d of %d: %v", b, batches, err))
+			}
+		})
+		fmt.Fprintf(os.Stderr, "c10: %d sequences in %d worker processes\n", len(seqs), batches)
+	}
+	if *fCase < 0 {
+		run.Floor("shape_pair_order", 36)
+		run.Floor("rejected_requests", run.Pick(50, 500))
+		run.Floor("restarts", run.Pick(20, 200))
+		run.Floor("injected_store_failures", run.Pick(10, 100))
+		run.Floor("accepted_creates", run.Pick(300, 3000))
+		run.Floor("accepted_deletes", run.Pick(60, 600))
+		run.Floor("reference_compared", run.Pick(60, 600))
+		run.Floor("exclusion_cases", run.Pick(40, 400))
+	}
 	return run
 }
